@@ -63,6 +63,38 @@ theorem tb_values (tb : ThermalBridge) (h : (tb.name != "LONGITUDES_CALCULADAS".
   rw [List.filter_cons, if_pos h]
   rfl
 
+/-- internal gains per unit area: the gain per person divided by the area per person, to two decimals; nobody in the space, no gain -/
+theorem per_area_values (g a : Rat) (ha : a ≠ 0) : perArea (some g) (some a) = some (round2 (g / a)) := by
+  simp [perArea, ha]
+theorem per_area_empty (g : TNum) : perArea g (some 0) = some 0 := by simp [perArea]
+
+/-- a layer construction keeps as many layers as it has both a material and a thickness for, with the written thicknesses in order -/
+theorem wallcons_layers (c : WallCons) :
+    (convWallCons c).thickness = c.thickness.take (min c.material.length c.thickness.length) ∧
+    (convWallCons c).absorptance = c.absorptance := by
+  refine ⟨?_, rfl⟩
+  unfold convWallCons
+  simp only
+  generalize c.material = ms
+  generalize c.thickness = ts
+  induction ms generalizing ts with
+  | nil => simp
+  | cons m mt ih =>
+    cases ts with
+    | nil => simp
+    | cons t tt =>
+      simp only [List.zip_cons_cons, List.map_cons, List.length_cons]
+      rw [ih tt]
+      simp [Nat.add_min_add_right]
+
+/-- window constructions, glazing and frames carry the written figures under their new names -/
+theorem wincons_values (c : WinCons) :
+    (convWinCons c).fF = c.framefrac ∧ (convWinCons c).deltaU = c.deltau ∧ (convWinCons c).gGlshwi = c.gglshwi ∧
+    (convWinCons c).c100 = c.infcoeff := ⟨rfl, rfl, rfl, rfl⟩
+theorem glass_frame_values (g : Glass) (f : Frame) :
+    (convGlass g).uValue = g.conductivity ∧ (convGlass g).gGln = g.gGln ∧
+    (convFrame f).uValue = f.conductivity ∧ (convFrame f).absorptivity = f.absorptivity := ⟨rfl, rfl, rfl, rfl⟩
+
 example : tbKindOf "FRENTE_FORJADO".toList = .intermediatefloor ∧ tbKindOf "HUECO_JAMBA".toList = .window ∧
     tbKindOf "OTRO".toList = .generic := by decide
 
